@@ -641,6 +641,114 @@ def derives_from(e, x, src):
     return derives(e, x, src)
 
 
+def small_circle_on_arc(ctx, crate):
+    """N (exact mode): `intersect_small_circle` has two candidate points per case (the great circle meets the
+    parallel twice) and keeps the one lying ON the arc p1-p2: a candidate v handed back as `Some(v)` has passed
+    BOTH `p1.v >= p1.p2` and `p2.v >= p1.p2` (each end at most one arc length away).  Read as polynomial
+    identities in the components of p1, p2 and v on the comparisons that succeeded on the way to each
+    `Some`: any weaker test (one end only, the sum of the two products) accepts the mirror root beyond an end
+    of the arc, whose cell is then pushed unconditionally."""
+    from poly import to_poly, Poly
+    from rules.common import cmp_facts
+    clause = "special-points"
+    fns = [p_ for p_ in crate.bodies if p_.endswith("special_points_finder::intersect_small_circle")]
+    if len(fns) != 1: return
+    fn = fns[0]
+    b = ctx.anchor(crate, fn, clause)
+    if b is None: return
+    e = Engine(crate); r = e.run(fn); ctx.functions |= e.visited_fns
+    acc = {}
+    for ev in e.events.values():
+        if ev.callee and ev.callee.split("::")[-1] in ("x", "y", "z") and "Vec3" in ev.callee and ev.args and show(ev.args[0]) in ("p1", "p2") and ev.ret is not None:
+            acc[ev.ret] = show(ev.args[0]) + ev.callee.split("::")[-1]
+    news = [ev for ev in e.events.values() if ev.callee and ev.callee.endswith("UnitVect3::new_unsafe") and len(ev.site) == 2 and len(ev.args) == 3]
+    if not news or not acc:
+        ctx.not_decided("intersect_small_circle: candidates not built through UnitVect3::new_unsafe / components not read through Vec3 accessors"); return
+    V = lambda n: Poly.var(n)
+    dot12 = V("p1x") * V("p2x") + V("p1y") * V("p2y") + V("p1z") * V("p2z")
+    W = {k: V(k + "x") * V("vx") + V(k + "y") * V("vy") + V(k + "z") * V("vz") - dot12 for k in ("p1", "p2")}
+    bad = []
+    for ev in news:
+        names = dict(acc); names[ev.args[0]] = "vx"; names[ev.args[1]] = "vy"; names[ev.args[2]] = "vz"
+        have = set()
+        for op, a_, c_, pos in cmp_facts(ev.facts):
+            if op not in ('ge', 'gt', 'le', 'lt'): continue
+            pa, pc = to_poly(a_, names), to_poly(c_, names)
+            if pa is None or pc is None: continue
+            # a failed `a < c` is read as a >= c (the products of unit vectors are not NaN)
+            dpoly = pa - pc if (op in ('ge', 'gt')) == bool(pos) else pc - pa
+            for k, w in W.items():
+                if dpoly == w: have.add(k)
+        if have != {"p1", "p2"}:
+            bad.append("the candidate returned at %s was tested against %s" % (ev.at, sorted(have) if have else "neither end (no `p.v >= p1.p2` comparison succeeded on the way)"))
+    ctx.report(clause, "intersect_small_circle:candidate-within-both-ends", not bad, "%d `Some` sites, each under p1.v >= p1.p2 and p2.v >= p1.p2" % len(news) if not bad else bad[0] +
+               ": a root beyond an end of the arc can be returned as the special point", at=b.span, kind="N")
+
+
+def quarter_pieces(ctx, crate):
+    """N (exact mode, sibling agreement): `arc_special_point_in_pc` cuts an edge that spans several quarters
+    (lon div pi/2) into pieces and searches each with `arc_special_point_in_pc_same_quarter(west, east)`.  A
+    piece is (vertex, intersection with a meridian plane) or (intersection, vertex): when the intersection is
+    the WEST end it lies on the LOWER bound q pi/2 of the vertex's quarter — plane normal (q&1, (q&1)^1, 0);
+    when it is the EAST end, on the UPPER bound — normal ((q&1)^1, q&1, 0).  Read for q = 0..3 on the
+    normal handed to `intersect_point_pc`, at every call site, in the branch that crosses lon = 0 and in the
+    one that does not (F28: the crossing branch searched the prolongation of the edge beyond p1)."""
+    from rules.common import feval
+    clause = "special-points"
+    fns = [p_ for p_ in crate.bodies if p_.endswith("special_points_finder::arc_special_point_in_pc")]
+    if len(fns) != 1: return
+    fn = fns[0]; SQ = fn + "_same_quarter"; IP = "special_points_finder::intersect_point_pc"
+    b = ctx.anchor(crate, fn, clause)
+    if b is None: return
+    if crate.body(SQ) is None or crate.body(IP) is None:
+        ctx.not_decided("arc_special_point_in_pc: pieces not searched through arc_special_point_in_pc_same_quarter / intersect_point_pc"); return
+    e = Engine(crate, opaque={SQ, IP}); e.run(fn); ctx.functions |= e.visited_fns
+    rpo = b.rpo()
+    ips = sorted([ev for ev in e.events.values() if ev.callee == IP and len(ev.site) == 2], key=lambda ev: rpo.get(ev.site[-1][1], 0))
+    sqs = [ev for ev in e.events.values() if ev.callee == SQ and len(ev.site) == 2]
+    bad = []; n = 0
+    for ev in sqs:
+        vals = ev.argvals or [None] * len(ev.args)
+        inter = [k for k in (0, 1) if k < len(vals) and vals[k] is not None and vals[k][0] == 'agg']
+        if not inter: continue                       # (vertex, vertex): the whole edge in one quarter
+        if len(inter) == 2: bad.append("%s: both ends are intersections" % ev.at); continue
+        pos = inter[0]
+        before = [ip for ip in ips if rpo.get(ip.site[-1][1], 0) < rpo.get(ev.site[-1][1], 0)]
+        nv = (before[-1].argvals or [None] * 4)[3] if before else None
+        if nv is None or nv[0] != 'agg' or len(nv[3]) < 2: bad.append("%s: normal of the meridian plane not found" % ev.at); continue
+        fa, fb = nv[3][0], nv[3][1]
+        qs = {x[3] if x[4][0] == 'c' else x[4] for t in (fa, fb) for x in walk(t) if x[0] == 'op' and x[1] == 'bitand' and (x[4] == C('u8', 1) or x[3] == C('u8', 1))}
+        if len(qs) != 1: bad.append("%s: normal not a function of one quarter index" % ev.at); continue
+        Q = next(iter(qs))
+        got = [(feval(fa, {Q: q}, e), feval(fb, {Q: q}, e)) for q in range(4)]
+        want = [((q & 1), (q & 1) ^ 1) if pos == 0 else ((q & 1) ^ 1, (q & 1)) for q in range(4)]
+        n += 1
+        # which end of the ARC is the vertex of this piece?  The two vertices are ordered by longitude (lo, hi);
+        # the arc runs west -> east from lo to hi, unless hi.lon - lo.lon > pi: then it crosses lon = 0 and runs
+        # from hi to lo.  The vertex that is the west end of the arc must be the west end of its piece.
+        import math
+        from rules.common import cmp_facts, cval
+        cross = None; lo = hi = None
+        for op, x_, c_, pos_ in cmp_facts(ev.facts):
+            if op not in ('gt', 'ge', 'lt', 'le'): continue
+            for d_, k_, flip in ((x_, c_, False), (c_, x_, True)):
+                if k_[0] == 'c' and k_[1] == 'f64' and abs(cval(k_) - math.pi) < 1e-15 and d_[0] == 'op' and d_[1] == 'sub' and d_[3][0] == 'fld' and d_[4][0] == 'fld' and d_[3][1][0] == 'deref' and d_[4][1][0] == 'deref':
+                    greater = (op in ('gt', 'ge')) != flip          # the test reads  (A.lon - B.lon) > pi
+                    cross = bool(pos_) == greater; hi, lo = d_[3][1][1], d_[4][1][1]
+        vertex = ev.args[1 - pos]
+        if cross is not None and vertex in (lo, hi):
+            vertex_is_west_of_arc = (vertex == hi) if cross else (vertex == lo)
+            if vertex_is_west_of_arc != (pos == 1):
+                bad.append("%s: in the branch where the arc %s lon = 0 the vertex %s is the %s end of the arc, but its piece is searched as (%s)" % (
+                    ev.at, "crosses" if cross else "does not cross", "of larger longitude" if vertex == hi else "of smaller longitude", "west" if vertex_is_west_of_arc else "east",
+                    "vertex, intersection" if pos == 1 else "intersection, vertex") + ": that is the prolongation of the edge beyond the vertex, not a piece of the edge")
+                continue
+        if [tuple(float(x) if x is not None else None for x in g) for g in got] != [tuple(float(x) for x in w) for w in want]:
+            bad.append("%s: the intersection is the %s end of the piece but lies on the %s bound of the quarter (normal for q = 0..3: %s)" % (ev.at, "west" if pos == 0 else "east", "upper" if pos == 0 else "lower", got))
+    ctx.report(clause, "arc_special_point_in_pc:pieces-between-vertex-and-own-quarter-bound", not bad and n >= 4, "%d pieces: west end on the lower bound, east end on the upper bound of the quarter" % n if not bad and n >= 4 else
+               (bad[0] if bad else "only %d pieces found" % n), at=b.span, kind="N")
+
+
 def run(ctx):
     crate = ctx.crate("rel")
     bounding_cone_coverage(ctx, crate)
@@ -653,6 +761,8 @@ def run(ctx):
     arc_test(ctx, crate)
     bounding_centre(ctx, crate)
     driver(ctx, crate)
+    small_circle_on_arc(ctx, crate)
+    quarter_pieces(ctx, crate)
     from rules.c09 import recursion_shape
     recursion_shape(ctx, crate, RECUR)
     ctx.not_decided("tightness; the point-in-polygon predicate vs. the geometric definition; termination of the descent; that 4 vertices + centre inside implies the whole cell inside (convexity argument)")
